@@ -250,3 +250,11 @@ Crossbeam<'static, ItemType, BUFFER_SIZE, MAX_STREAMS> {
     type ItemType            = ItemType;
     type DerivedItemType     = Arc<ItemType>;
 }
+
+#[cfg(feature = "verif")]
+impl<'a, ItemType: Send + Sync + Debug, const BUFFER_SIZE: usize, const MAX_STREAMS: usize>
+crate::verif::VerifState for Crossbeam<'a, ItemType, BUFFER_SIZE, MAX_STREAMS> {
+    fn verif_state(&self, out: &mut Vec<u64>) {
+        self.streams_manager.verif_state(out);
+    }
+}
